@@ -185,6 +185,9 @@ let () = run_lines (fun f ->
        let th = if their = "-" then 0 else int_of_string their in
        show_verdict (RespS.pair_check (n_of_int th) (n_of_int (int_of_string edns)) (unhex u) (unhex t))
      | _ -> "bad:no-two-responses")
-  | "", [edns; _; cat; req] ->
-    "U " ^ respond "u" edns cat req ^ " ## T " ^ respond "t" edns cat req ^ " | -"
+  | "", [edns; their; cat; req] ->
+    (* oracle column: what the pair relation is evaluated against (the verdict itself needs the implementation's octets) *)
+    let lim = if their = "-" then "512" else string_of_int (max 512 (min (int_of_string their) (int_of_string edns))) in
+    "U " ^ respond "u" edns cat req ^ " ## T " ^ respond "t" edns cat req ^
+    " | pair relation (Spec/RespS.v pair_check) with UDP limit " ^ lim ^ " if the OPT was processed, else 512"
   | _ -> failwith "bad case")
